@@ -17,17 +17,20 @@ def find_state_change_intervals(
     equals: Callable,
     step=60,
 ) -> Generator:
-    succ_value = get(head)
-    logger.debug('%s at head %s' % succ_value, head)
+    pred_level, pred_value = last, get(last)
+    logger.debug('%s at level %s', pred_value, pred_level)
 
-    for level in range(head - step, last, -step):
+    # walk upwards from `last` (inclusive) so that intervals come in increasing order
+    # and changes right after the start of the range are not skipped
+    while pred_level < head:
+        level = min(pred_level + step, head)
         value = get(level)
-        logger.debug('%s at level %s' % value, level)
+        logger.debug('%s at level %s', value, level)
 
-        if not equals(value, succ_value):
-            logger.debug('%s -> %s at (%s, {level + step})' % value, succ_value, level)
-            yield level + step, succ_value, level, value
-            succ_value = value
+        if not equals(value, pred_value):
+            logger.debug('%s -> %s at (%s, %s]', pred_value, value, pred_level, level)
+            yield level, value, pred_level, pred_value
+        pred_level, pred_value = level, value
 
 
 def find_state_change(
@@ -43,7 +46,7 @@ def find_state_change(
 
         level = (end + start) // 2
         value = get(level)
-        logger.debug('%s at level %s' % value, level)
+        logger.debug('%s at level %s', value, level)
 
         if equals(value, pred_value):
             return bisect(level, end)
@@ -65,7 +68,7 @@ def walk_state_change_interval(
     value = last_value
     while not equals(value, head_value):
         level, value = find_state_change(head, level, get, equals, pred_value=value)
-        logger.debug('%s -> %s at %s' % last_value, value, level)
+        logger.debug('%s -> %s at %s', last_value, value, level)
         yield level, value
 
 
